@@ -163,11 +163,11 @@ def valid(sc):
 
 def describe(tier):
     return {
-        "rule": "K: every scenario within 2 deviations of the default QUIC v1 connection over the alternative menu (thorough: also every "
+        "rule": "K: every scenario within 2 deviations of the default QUIC v1 connection over the alternative menu (suites, offered order, connection-ID lengths, packet-number encodings, coalescing, frames before/after STREAM incl. wide ACKs and CONNECTION_CLOSE, scripts incl. 280 datagrams per direction, STREAM flags, ClientHello split into 2-3 pieces in every order / one or several Initials / overlapping pieces / the server's ACK in between, Retry and NEW_TOKEN tokens of 1..300 bytes, 0-RTT (also after a Retry), Version Negotiation, NEW_CONNECTION_ID switches, IPv6, capture instants swapped / descending / nanoseconds apart) (thorough: also every "
                 "3-deviation scenario over a reduced 19-alternative menu); "
                 "F: every sequence of <=2 (thorough <=3) frames from an 18-frame menu before and after the STREAM frame; "
                 "U: every distinct packet history (<=8 packets, <=3 key generations; thorough <=10) produced by the RFC 9001 "
-                "section 6 key-update transition system. non-trivial: stream bytes exported in both directions; distinct = "
+                "section 6 key-update transition system (histories reaching generation 2 also with NewSessionTicket CRYPTO frames in the server's packets). non-trivial: stream bytes exported in both directions; distinct = "
                 "distinct scenario descriptors. states/transitions: those of the key-update transition system",
         "exhaustive": True,
         "bounds": {"deviations": 2, "alternatives": sum(len(v) for v in ALTS.values()), "frame_seq": 2 if tier == "quick" else 3,
